@@ -71,7 +71,8 @@ def plan(tier):
 def run_shard(shard, seed, tier, rec):
     ZY['z'] = worker.Zygote()
     try:
-        hyp.run_given(rec, strategy(), lambda h: eval_case(h, rec), seed, shard['examples'], kind='history')
+        hyp.run_given(rec, strategy(), lambda h: eval_case(h, rec), seed, shard['examples'], kind='history',
+                      shrink_budget=60)
     finally:
         ZY['z'].close()
 
